@@ -178,7 +178,14 @@ func (a *actor) run(p *Peer, nops int) {
 			a.asked[p.Name] = append(a.asked[p.Name], askedPair{sf, cf})
 		case k < 5: // unbind
 			ri := &regIssued{peer: p, op: RegOp{Kind: "unbind", Peer: p.Name, Client: AddrStr(cf.Address()), Server: AddrStr(sf.Address()), Desc: "delete"}}
-			ri.ctr = p.SendUnbind(cf.Address(), sf.Address(), "unbind")
+			ca := cf.Address()
+			if a.w.T.Bool(1, 4, "delete-omits-client-device") {
+				// (an absent device part means the sender's device: the same request, seed C03-h)
+				ca.Device = nil
+				ri.op.Desc += "+client-device-omitted"
+				a.w.Probe("actor-delete-omits-client-device")
+			}
+			ri.ctr = p.SendUnbind(ca, sf.Address(), "unbind")
 			a.binds.issued = append(a.binds.issued, ri)
 			await = ri.ctr
 		case k < 7: // subscribe
@@ -364,6 +371,21 @@ func (a *actor) checkWrites(prop string, ev *EventLog, regOps []RegOp, dops []*d
 		fn  model.FunctionType
 	}
 	minEv, maxEv := map[evKey]int{}, map[evKey]int{}
+	// a write is "rejected again as soon as the binding is deleted": a delete call for a binding
+	// that certainly stands (granted, nothing else touching the pair meanwhile) removes it - a
+	// refusal would leave the peer authorised against its will (seed C03-h; the authorisation
+	// oracle below follows the results the node gave, so it cannot see this by itself)
+	for _, o := range regOps {
+		if o.Kind != "unbind" || o.OK || o.Return == 0 || prop != "C03" {
+			continue
+		}
+		key := RegKey{o.Peer, o.Client, o.Server}
+		if subscribedState(regOps, "bind", key, o.Call, o.Return) == 1 {
+			w.Violate(prop+"/valid-binding-delete-refused", "%s's delete call for its binding %s -> %s (%s) was refused although the binding stands", o.Peer, o.Client, o.Server, o.Desc)
+		} else {
+			w.Probe("unbind-refused-without-binding")
+		}
+	}
 	for _, wo := range a.writes {
 		for _, d := range wo.peer.DeliveriesOf(wo.ctr) {
 			if !d.Done {
